@@ -5,6 +5,7 @@ package main
 // that can never be acquired shows up as a deadlock/leak verdict at quiescence.
 
 import (
+	"os"
 	"fmt"
 
 	"golang.org/x/tools/go/ssa"
@@ -33,7 +34,16 @@ func init() {
 		e.stubUsed("sync.Mutex/RWMutex: engine-level lock objects; blocking via the symbolic scheduler")
 		m := e.mutexOf(e.muPtr(a[0]))
 		g := e.curG(c)
-		e.blockUntil(g, "mutex "+m.name, func() bool { return m.writer == nil && m.readers == 0 })
+		if m.writer != nil || m.readers != 0 {
+			// a writer that has to wait is pending: as in sync.RWMutex, readers arriving from now
+			// on queue behind it (this is what makes recursive read locking a deadlock)
+			m.pending++
+			if os.Getenv("VERIF_DBG") != "" {
+				fmt.Fprintf(os.Stderr, "DBG g%d pending writer on %s readers=%d\n", g.id, m.name, m.readers)
+			}
+			e.blockUntil(g, "mutex "+m.name, func() bool { return m.writer == nil && m.readers == 0 })
+			m.pending--
+		}
 		m.writer = g
 		return nil
 	}
@@ -62,8 +72,18 @@ func init() {
 	reg("(*sync.RWMutex).TryLock", trylock)
 	reg("(*sync.RWMutex).RLock", func(e *Exec, c *frame, fn *ssa.Function, a []Value) Value {
 		m := e.mutexOf(e.muPtr(a[0]))
-		e.blockUntil(e.curG(c), "rlock "+m.name, func() bool { return m.writer == nil })
+		g := e.curG(c)
+		if m.readHolders[g] > 0 {
+			// recursive read lock: the schedules in which a writer arrives between the two
+			// acquisitions are the interesting ones, so the other goroutines may run first here
+			e.recursionPoint(g, "recursive rlock "+m.name)
+		}
+		e.blockUntil(g, "rlock "+m.name, func() bool { return m.writer == nil && m.pending == 0 })
 		m.readers++
+		if m.readHolders == nil {
+			m.readHolders = map[*Goroutine]int{}
+		}
+		m.readHolders[g]++
 		return nil
 	})
 	reg("(*sync.RWMutex).RUnlock", func(e *Exec, c *frame, fn *ssa.Function, a []Value) Value {
@@ -72,6 +92,9 @@ func init() {
 			panic(e.goPanic("fatal error: sync: RUnlock of unlocked RWMutex"))
 		}
 		m.readers--
+		if g := e.curG(c); m.readHolders[g] > 0 {
+			m.readHolders[g]--
+		}
 		e.schedPoint(e.curG(c), "runlock")
 		return nil
 	})
